@@ -520,6 +520,11 @@ func (e *Env) call(n ECall) Term {
 		if pv.GoT == nil {
 			evalFail("val() of untyped pointer")
 		}
+		if _, isPtr := pv.GoT.Underlying().(*types.Pointer); !isPtr {
+			// the pointer is a place the engine tracks (the address of a field or variable): evaluating it already gave
+			// the content
+			return pv
+		}
 		pt := deref(pv.GoT)
 		so, ok := sortOf(pt)
 		if !ok {
@@ -679,6 +684,61 @@ func (e *Env) call(n ECall) Term {
 			return mk(SInt, "(inj_Bool %s)", a.S)
 		}
 		return a
+	case "closure":
+		// closure(x, "KEY"): x is a function value made from the function literal KEY
+		need(2)
+		s, ok := n.Args[1].(EStr)
+		if !ok {
+			evalFail("closure(x, \"KEY\")")
+		}
+		key := s.V
+		if e.c.V.fnByKey[key] == nil {
+			if i := strings.Index(e.c.Key, "."); i >= 0 && e.c.V.fnByKey[e.c.Key[:i+1]+key] != nil {
+				key = e.c.Key[:i+1] + key
+			} else {
+				evalFail("closure: no function %s", s.V)
+			}
+		}
+		e.c.declare("(declare-fun closfn (Int) Int)")
+		return mk(SBool, "(= (closfn %s) %d)", arg(0).S, e.c.V.typeID("fn:"+key))
+	case "bound":
+		// bound(x, i): the i-th captured variable (its address) or captured reference of the function value x
+		need(2)
+		e.c.declare("(declare-fun closbind (Int Int) Int)")
+		return mk(SInt, "(closbind %s %s)", arg(0).S, arg(1).S)
+	case "addrof":
+		// addrof(x.f): the address of field f of the object x
+		// addrof(x), x a pointer-typed variable: the address it holds (also when the engine tracks it as a place)
+		need(1)
+		if id, isId := n.Args[0].(EIdent); isId {
+			if v, ok := e.vars[id.Name]; ok {
+				if ad, isA := v.(*Addr); isA {
+					return e.c.addrIdentity(ad)
+				}
+			}
+			t := e.eval(n.Args[0])
+			if t.Sort != SInt {
+				evalFail("addrof(%s): not an address", id.Name)
+			}
+			return t
+		}
+		fe, ok := n.Args[0].(EField)
+		if !ok {
+			evalFail("addrof(x.f)")
+		}
+		base := e.eval(fe.X)
+		if base.GoT == nil {
+			evalFail("addrof: untyped base %s", fe.X)
+		}
+		fis, ok := e.c.resolveFieldChain(base.GoT, fe.Name)
+		if !ok {
+			evalFail("type %s has no field %s", base.GoT, fe.Name)
+		}
+		ref := base
+		for _, fi := range fis[:len(fis)-1] {
+			ref = e.c.loadField(e.cur, ref, fi)
+		}
+		return mk(SInt, "(sub %s %d)", ref.S, e.c.V.typeID(fis[len(fis)-1].Key))
 	case "box":
 		need(2)
 		s, ok := n.Args[0].(EStr)
